@@ -157,6 +157,13 @@ func (e Engine) newDB(config dvid.StoreConfig) (*BadgerDB, bool, error) {
 		stopSyncCh: make(chan bool),
 	}
 
+	if !opts.ReadOnly {
+		removeEmptyLogFiles(opts.Dir)
+		if opts.ValueDir != opts.Dir {
+			removeEmptyLogFiles(opts.ValueDir)
+		}
+	}
+
 	dvid.TimeInfof("Opening badger @ path %s\n", path)
 	bdp, err := badger.Open(*opts)
 	if err != nil {
@@ -179,6 +186,29 @@ func (e Engine) newDB(config dvid.StoreConfig) (*BadgerDB, bool, error) {
 	}
 
 	return badgerDB, !metadataExists, nil
+}
+
+// removeEmptyLogFiles deletes zero-length memtable (.mem) and value log (.vlog) files.  A process
+// killed between the creation and the sizing of such a file leaves it empty; it holds no data, yet
+// badger refuses to open a directory containing one ("Create a new file").
+func removeEmptyLogFiles(dir string) {
+	entries, err := os.ReadDir(dir)
+	if err != nil {
+		return
+	}
+	for _, entry := range entries {
+		ext := filepath.Ext(entry.Name())
+		if entry.IsDir() || (ext != ".mem" && ext != ".vlog") {
+			continue
+		}
+		if info, err := entry.Info(); err == nil && info.Size() == 0 {
+			fname := filepath.Join(dir, entry.Name())
+			dvid.Infof("Removing empty badger file %s left by an interrupted start\n", fname)
+			if err := os.Remove(fname); err != nil {
+				dvid.Errorf("unable to remove empty badger file %s: %v\n", fname, err)
+			}
+		}
+	}
 }
 
 // ---- RepairableEngine interface not implemented ------
